@@ -153,6 +153,7 @@ class Run:
         self.violations = []        # property failures on the implementation (with replay case)
         self.mismatches = []        # model/implementation disagreements
         self.ambiguous = 0
+        self.soft = []              # results differ but denote the same operation (float noise at an un-tagged threshold)
         self.notes = []
         self.open_findings = {f["key"]: f for f in known_findings() if f["property"] == pid and f["status"] == "open"}
         self.known_hits = collections.Counter()
@@ -195,6 +196,13 @@ def write_replay(run: Run, kind, entry, prove_res):
 
 def finish(run: Run, prove_res, level_note=""):
     """decide, write evidence, print lines, return exit code"""
+    # soft disagreements (same operation, different representation) are threshold ambiguities when they are rare;
+    # a systematic divergence of the model shows up as many of them and breaks the tie
+    soft_limit = max(2, run.evaluations // 1000)
+    if len(run.soft) <= soft_limit:
+        run.ambiguous += len(run.soft)
+    else:
+        for e in run.soft[:50]: run.mismatch("(same operation, different result) " + e["what"], e["case"], e["impl"], e["model"])
     wall = time.time() - run.t0
     ev = {
         "property_id": run.pid, "tier": run.tier, "seed": run.seed, "level": "proof",
@@ -211,7 +219,7 @@ def finish(run: Run, prove_res, level_note=""):
             "rule": "correspondence + oracle cases generated from VERIF_SEED; distinct = distinct wire-form inputs (sha1), non-trivial = reaches the modelled code path under test",
             "samples": run.samples[:3] if run.samples else ["(no generated cases)"],
             "histogram": dict(run.hist),
-            "tie_mismatches": len(run.mismatches), "threshold_ambiguous": run.ambiguous,
+            "tie_mismatches": len(run.mismatches), "threshold_ambiguous": run.ambiguous, "soft_disagreements": len(run.soft),
             "known_finding_hits": dict(run.known_hits),
             "notes": run.notes,
         },
@@ -276,6 +284,8 @@ def batch_tie(run: Run, label, cases, req, impl, parse, compare, tol=1e-9):
         d = compare(c, r, m)
         if d == "ambiguous":
             run.ambiguous += 1
+        elif d and d.startswith("soft:"):
+            run.soft.append({"what": f"{label}: {d[5:]}", "case": c, "impl": strip_private(r), "model": m})
         elif d:
             run.mismatch(f"{label}: {d}", c, strip_private(r), m)
     return out
